@@ -13,7 +13,7 @@ PID = "C02"
 FRAGS = {"quick": [("zoo", 4), ("zoo2", 5), ("locloop", 6), ("do", 3), ("mix", 3), ("late", 4)],
          "thorough": [("zoo", 5), ("zoo2", 6), ("locloop", 8), ("do", 5), ("mix", 5), ("def", 5), ("case", 4), ("begin", 4), ("late", 5)]}
 RANDOM = {"quick": (1500, 30), "thorough": (20000, 45)}
-REPLAY_CAP = {"quick": 15000, "thorough": 80000}
+REPLAY_CAP = {"quick": 9000, "thorough": 30000}      # per fragment
 
 CFG = """SPECIFICATION Spec
 CONSTANTS
@@ -49,6 +49,7 @@ def run(tier, seed):
     vlib.build_harness()
     states = trans = 0
     all_cases = []
+    replayed = []
     for frag, budget in FRAGS[tier]:
         res = run_tlc("mc/MC_C02", CFG % (frag, budget), wd, name=f"MC_C02_{frag}", timeout=3000)
         if res["violated"]:
@@ -57,11 +58,12 @@ def run(tier, seed):
         tlc_must_pass(res, f"MC_C02 {frag}")
         states += res["distinct"]
         trans += res["generated"]
-        all_cases += extract_lines(res["out"])
-    # TLC has explored every interleaving of every program on the design; on the real crate each program is stepped under
-    # three schedules, which is affordable for a deterministic stride sample when the enumeration is very large
-    cap = REPLAY_CAP[tier]
-    replayed = all_cases if len(all_cases) <= cap else all_cases[::(len(all_cases) + cap - 1) // cap]
+        lines = extract_lines(res["out"])
+        all_cases += lines
+        # TLC has explored every interleaving of every program on the design; on the real crate each program is stepped
+        # under three schedules: every program of a fragment up to the cap, a deterministic stride sample of a larger one
+        cap = REPLAY_CAP[tier]
+        replayed += lines if len(lines) <= cap else lines[::(len(lines) + cap - 1) // cap]
     cases = os.path.join(wd, "cases.ndjson")
     write_ndjson(cases, replayed)
     t1, s1 = os.path.join(wd, "enum.trace.ndjson"), os.path.join(wd, "enum.side.ndjson")
